@@ -214,7 +214,8 @@ PlanOK(gv, ds) ==
        /\ IsPerm(gv \o LeavesOf(ds, 1))
 
 TypeOK ==
-  /\ par \in ParamSpace
+  /\ par.ng \in Nat /\ par.bf \in Nat /\ par.bf >= 2 /\ par.batch \in Nat /\ par.batch >= 1 /\ par.ext \in BOOLEAN
+  /\ \A j \in 1..Len(par.vn) : par.vn[j] \in Nat /\ par.vn[j] >= 1
   /\ mem.alive \in BOOLEAN /\ disk.saved \in BOOLEAN
   /\ mem.job \in Nat /\ mem.epoch \in 0..MaxEpoch
   /\ nextepoch \in 2..(MaxEpoch + 1) /\ crashes \in 0..MaxCrash
@@ -235,7 +236,7 @@ C38_Variant   == [][StepHappened => Variant(mem') < Variant(mem)]_vars
 C38_WriteOnce == [][\A p \in DOMAIN store : p \in DOMAIN store' /\ store'[p] = store[p]]_vars
 C38_Terminates == <>(OutPath \in DOMAIN store)
 
-\* vacuity guards (must be violated = reachable)
-Reach_ResumedFinal == ~(OutPath \in DOMAIN store /\ mem.alive /\ mem.epoch > 1)
-Reach_Refused      == ~(disk.saved /\ Refusing)
+\* Situations that must be reachable (the harness looks for them in the dumped graph: resumed run that wrote the
+\* output; LoadRefused edges)
+ResumedFinal == OutPath \in DOMAIN store /\ mem.alive /\ mem.epoch > 1
 =============================================================================
